@@ -256,6 +256,43 @@ def gen_api(exe):
     print("Api: dispatch and version facts extracted")
 
 
+RESET_POINTS = [("cbe", "Reader", "SetReader"), ("cbe", "Encoder", "PrepareToEncode"),
+                ("rules", "Context", "Reset"), ("cte", "EncoderContext", "Begin")]
+
+
+def gen_session(exe):
+    """type-cache protocol shape and per-document reset points (C16, C17, C07)"""
+    def sl(xs):
+        return "[" + ", ".join(lean_str(x) for x in xs) + "]"
+    it = run_json(exe, "cacheproto", REPO, "iterator", "GetIteratorForType")
+    bu = run_json(exe, "cacheproto", REPO, "builder", "GetBuilderGeneratorForType")
+    lines = ["/- GENERATED by extract/extract.py from iterator/session.go, builder/session.go, cbe/decoder_reader.go,",
+             "   cbe/encoder.go, rules/context.go, cte/encoder_context.go — do not edit -/",
+             "namespace CE.Gen", "",
+             f"def iteratorCacheProtocol : List String := {sl(it)}",
+             f"def builderCacheProtocol : List String := {sl(bu)}", "",
+             "/-- (reset point, fields of the struct, fields the reset point assigns) -/",
+             "def resetFacts : List (String × List String × List String) := ["]
+    rows = []
+    for d, t, f in RESET_POINTS:
+        r = run_json(exe, "resetfacts", REPO, d, t, f)
+        rows.append(f"  ({lean_str(d + '.' + t + '.' + f)}, {sl(r['fields'] or [])}, {sl(r['assigned'] or [])})")
+    lines.append(",\n".join(rows) + "]")
+    lines += ["", "end CE.Gen", ""]
+    open(os.path.join(GEN, "Session.lean"), "w").write("\n".join(lines))
+    chk = ["import CE.Gen.Session", "import CE.Cache.Expect",
+           "/- GENERATED obligations: the cache protocol and the reset points of /repo, as extracted just now,",
+           "   are the ones the model (CE/Cache/Model.lean) and the C16/C17 theorems are about. -/",
+           "namespace CE.GenCheckSession", "",
+           "theorem iterator_cache_protocol_eq : CE.Gen.iteratorCacheProtocol = CE.Cache.Expect.cacheProtocol := by decide",
+           "theorem builder_cache_protocol_eq : CE.Gen.builderCacheProtocol = CE.Cache.Expect.cacheProtocol := by decide",
+           "theorem reset_points_fields_eq : CE.Gen.resetFacts.map (fun r => (r.1, r.2.1)) = CE.Cache.Expect.resetFields := by decide",
+           "theorem reset_points_cover : ∀ r ∈ CE.Gen.resetFacts, ∀ f ∈ CE.Cache.Expect.mustReset r.1, f ∈ r.2.2 := by decide",
+           "", "end CE.GenCheckSession", ""]
+    open(os.path.join(GEN, "CheckSession.lean"), "w").write("\n".join(chk))
+    print("Session: cache protocol and reset facts extracted")
+
+
 def snapshot():
     src = open(os.path.join(GEN, "Chars.lean")).read()
     src = src.replace("namespace CE.Gen", "namespace CE.Chars.Model").replace("end CE.Gen", "end CE.Chars.Model")
@@ -290,6 +327,7 @@ def main():
     gen_rule_table(exe)
     gen_chars(exe)
     gen_api(exe)
+    gen_session(exe)
     gen_check()
     if "--snapshot" in sys.argv:
         snapshot()
